@@ -32,6 +32,7 @@ class E2Result:
     samples: list = field(default_factory=list)
     nontrivial: int = 0
     keys: set = field(default_factory=set)
+    aux: int = 0  # evaluations counted by a state oracle (e.g. faulty calls executed)
 
     def merge(self, o: "E2Result"):
         self.states += o.states
@@ -43,6 +44,7 @@ class E2Result:
         self.fails += o.fails
         self.nontrivial += o.nontrivial
         self.keys |= o.keys
+        self.aux += o.aux
         for k, v in o.features.items():
             self.features[k] = self.features.get(k, 0) + v
         self.samples += o.samples[: max(0, 4 - len(self.samples))]
@@ -57,7 +59,7 @@ def replay_prefix(sc, prog):
 
 def _subtree(job):
     sc_name, prefix, max_calls, free0, expand = job
-    scs, oracle = _JOB
+    scs, oracle, state_oracle = _JOB
     sc = scs[sc_name]
     res = E2Result()
     seen_complete = set()
@@ -75,6 +77,16 @@ def _subtree(job):
             continue
         res.states += 1
         res.transitions += len(prog)
+        if state_oracle is not None:
+            try:
+                sfails = state_oracle(sc, ctx, prog)
+                if isinstance(sfails, tuple):
+                    sfails, cnt = sfails
+                    res.aux += cnt
+                for sig, msg in sfails:
+                    res.fails.append((sig, msg, {"scenario": sc_name, "program": prog, "state": True}))
+            except Exception as e:  # noqa: BLE001
+                res.fails.append(("state-oracle-exception", f"{type(e).__name__}: {e} {traceback.format_exc(limit=-3)[-400:]}", {"scenario": sc_name, "program": prog, "state": True}))
         if bpm.complete(ctx):
             full = prog
             menu = []
@@ -108,7 +120,7 @@ def _subtree(job):
                 if len(res.samples) < 2 and len(full) >= 3:
                     res.samples.append({"scenario": sc_name, "program": full})
                 try:
-                    for sig, msg in oracle(sc, ctx, full):
+                    for sig, msg in (oracle(sc, ctx, full) if oracle is not None else []):
                         res.fails.append((sig, msg, {"scenario": sc_name, "program": full}))
                 except Exception as e:  # noqa: BLE001
                     res.fails.append(("oracle-exception", f"{type(e).__name__}: {e} {traceback.format_exc(limit=-3)[-400:]}", {"scenario": sc_name, "program": full}))
@@ -117,14 +129,15 @@ def _subtree(job):
             nfree = free + (1 if len(menu) > 1 else 0)
             for call in reversed(menu):
                 stack.append((prog + [call], nfree))
-    res.fails = res.fails[:200]
+    res.fails = res.fails[:400]
     return res
 
 
-def explore(scenarios: dict, oracle, plan: list, shard_depth: int = 2, procs=None) -> E2Result:
-    """plan: list of (scenario name, max_calls)."""
+def explore(scenarios: dict, oracle, plan: list, shard_depth: int = 2, procs=None, state_oracle=None) -> E2Result:
+    """plan: list of (scenario name, max_calls).  `oracle` judges complete programs, `state_oracle`
+    every prefix state (it must not mutate the context it is given)."""
     global _JOB
-    _JOB = (scenarios, oracle)
+    _JOB = (scenarios, oracle, state_oracle)
     jobs = []
     total = E2Result()
     for sc_name, max_calls in plan:
